@@ -1,16 +1,52 @@
+import os
+
 from ..runner import Harness, Spec
+
+# harness/c05/core_test.go is package-agnostic apart from its package clause; the profiles harness runs the same
+# core inside package xexporterhelper. Keep the committed copy in sync (own file, written only when it differs).
+_H = os.path.join(os.path.dirname(os.path.dirname(os.path.dirname(os.path.abspath(__file__)))), "harness", "c05")
+
+
+def _sync_xcore():
+    with open(os.path.join(_H, "core_test.go")) as f:
+        body = f.read().replace("\npackage exporterhelper\n", "\npackage xexporterhelper\n", 1)
+    body = body.replace("//go:build verif\n", "//go:build verif\n\n// GENERATED from core_test.go by lib/props/c05.py (package clause replaced) - do not edit.\n", 1)
+    dst = os.path.join(_H, "gen_xcore_test.go")
+    try:
+        with open(dst) as f:
+            if f.read() == body:
+                return
+    except FileNotFoundError:
+        pass
+    tmp = dst + ".tmp%d" % os.getpid()
+    with open(tmp, "w") as f:
+        f.write(body)
+    os.replace(tmp, dst)
+
+
+_sync_xcore()
 
 SPEC = Spec(
     pid="C05",
     lean_modules=["OtelVerif.Props.C05"],
     harnesses=[
         Harness(name="retry", module="exporter", pkg="exporter/exporterhelper",
-                files={"zz_verif_c05_retry_test.go": "c05/retry_test.go"},
+                files={"zz_verif_c05_core_test.go": "c05/core_test.go", "zz_verif_c05_signals_test.go": "c05/signals_test.go"},
                 test="TestVerifC05Retry", driver="drv_c05", go="go1.26",
                 n={"quick": 6000, "thorough": 150000}, timeout_s=1500),
+        Harness(name="retry-profiles", module="exporter/exporterhelper/xexporterhelper", pkg="exporter/exporterhelper/xexporterhelper",
+                files={"zz_verif_c05_core_test.go": "c05/gen_xcore_test.go", "zz_verif_c05_signals_test.go": "c05/xsignals_test.go"},
+                test="TestVerifC05Retry", driver="drv_c05", go="go1.26",
+                n={"quick": 1500, "thorough": 30000}, timeout_s=1500, env={"VERIF_C05_NOEXH": "1"}),
         Harness(name="errs", module="exporter", pkg="exporter/exporterhelper/internal",
                 files={"zz_verif_c05_errs_test.go": "c05/errs_test.go"},
                 test="TestVerifC05Errs", driver="drv_c05", n={"quick": 4000, "thorough": 100000}),
+        Harness(name="otlp-grpc", module="exporter/otlpexporter", pkg="exporter/otlpexporter",
+                files={"zz_verif_c05_otlpgrpc_test.go": "c05/otlpgrpc_test.go"},
+                test="TestVerifC05OtlpGrpc", driver="drv_c05", n={"quick": 1, "thorough": 1},
+                # the pinned version of this indirect dependency is not in the offline module cache; the copy of go.mod
+                # (never /repo's) points it at the cached one
+                mod_append=["replace github.com/klauspost/compress => github.com/klauspost/compress v1.18.0"]),
         Harness(name="validate", module="exporter", pkg="exporter/exporterhelper/internal",
                 files={"zz_verif_c05_errs_test.go": "c05/errs_test.go"},
                 test="TestVerifC05Validate", driver="drv_c05", n={"quick": 4000, "thorough": 100000}),
@@ -22,9 +58,14 @@ SPEC = Spec(
          "random order between random fmt %w / errors.Join / multierr wrappers) x shutdown / cancellation / deadline placed before, inside or "
          "after specific attempts and waits of a dry run of the same case. rf>0: the value NextBackOff returns is learnt from a mirror "
          "ExponentialBackOff fed by the same seeded math/rand source and passed to the model (drawn=). Cases where an external event falls on "
-         "exactly the instant of an independent timer are not compared (stat tie_skipped). Corpus first (DESIGN probe; zero-delay + shutdown / "
+         "exactly the instant of an independent timer (8-9 %) are not diffed against the deterministic model but MONITORED: the driver "
+         "checks that the observation is accepted by `accepts` (sound for the relation Allowed = some scheduling order; stat "
+         "tie_monitored) and by the clause oracle. Every call also records what the pusher saw of the timeout sender and the request "
+         "deadline (ctx.Deadline(), and Canceled/DeadlineExceeded for pushers that wait for their context). Corpus first (DESIGN probe; zero-delay + shutdown / "
          "cancel during the attempt; shutdown+cancel both pending; throttle/partial/permanent; deadline). thorough adds every script of "
          "length <=3 over 6 outcome kinds x 16 event placements x 2 configs. non-trivial = at least two attempts; distinct = sha1 of op lines. "
+         "retry-profiles: the same core in package xexporterhelper driving NewProfilesExporter / xconsumererror.Profiles. "
+         "otlp-grpc: otlpexporter.processError on every gRPC code x {no RetryInfo, 6 delays}: nil / permanent / plain / throttle(d). "
          "errs: random wrap/join error trees (depth<=5) classified by the real IsPermanent / IsShutdownErr / errors.As(throttleRetry) / "
          "errors.As(consumererror.Logs). validate: BackOffConfig.Validate + TimeoutConfig.Validate incl. rejected configs.",
     trusted_base=[
@@ -38,8 +79,12 @@ SPEC = Spec(
         "Go runtime: select, timers, context, testing/synctest virtual clock",
     ],
     assumptions=[
-        "an external event (shutdown, cancellation, deadline) falling on exactly the instant an independent timer fires is outside the theorem "
-        "(either order is possible in Go); the model lets the timer win, such cases are skipped by the harness",
+        "an external event (shutdown, cancellation, deadline) falling on exactly the instant an independent timer fires: either order is "
+        "possible in Go; the relation Allowed/ndAllowed contains both, the theorems C05_allowed_* hold for both, the deterministic run is "
+        "one of them (C05_run_allowed); which cases are ties is decided by the harness (Go) from the recorded instants",
+        "LawAlong: the library law is assumed for every draw the script supplies (also for attempts that are never reached)",
+        "the otlp-grpc harness runs with a go.mod COPY whose indirect dependency klauspost/compress is pointed at the cached v1.18.0 "
+        "(v1.17.11 is not in the offline module cache); /repo is not touched",
         "durations fit int64 nanoseconds without overflow",
         "the theorems are about the repaired retry loop (fix commit in /tmp/wt-C05: poll stopCh, then ctx.Err(), before the blocking select)",
     ],
